@@ -201,10 +201,15 @@ func elemTypeOfAddr(v ssa.Value) types.Type {
 func (mi *ModInfo) ownMods(f *ssa.Function) *ModSet {
 	ms := &ModSet{Fams: map[string]Sort{}}
 	tmp := map[string]Sort{}
+	invisible := invisibleAllocs(f)
 	for _, b := range f.Blocks {
 		for _, ins := range b.Instrs {
 			switch x := ins.(type) {
 			case *ssa.Store:
+				// stores into cells that no caller can observe do not belong to the function's effect
+				if r := allocRoot(x.Addr, 0); r != nil && invisible[r] {
+					continue
+				}
 				mi.storeTargetFams(x.Addr, tmp)
 			case *ssa.MapUpdate:
 				if m, ok := under(x.Map.Type()).(*types.Map); ok {
@@ -385,7 +390,7 @@ func (w *World) ComputeMods() *ModInfo {
 				for _, ins := range b.Instrs {
 					if ci, ok := ins.(ssa.CallInstruction); ok {
 						c := ci.Common()
-						if c.StaticCallee() == nil && !c.IsInvoke() {
+						if c.StaticCallee() == nil && !c.IsInvoke() && !w.IsParametric(f) {
 							if _, isb := c.Value.(*ssa.Builtin); !isb {
 								has := false
 								for _, e := range n.Out {
@@ -404,12 +409,28 @@ func (w *World) ComputeMods() *ModInfo {
 				}
 			}
 			for _, e := range n.Out {
+				cal := e.Callee.Func
 				if e.Site != nil {
-					if _, isDefer := e.Site.(*ssa.Defer); isDefer {
-						// deferred calls count too
+					sc := e.Site.Common()
+					// dynamic calls through function values inside a callback-parametric function are accounted
+					// for at the call sites that supply the callbacks
+					if w.IsParametric(f) && sc.StaticCallee() == nil && !sc.IsInvoke() {
+						continue
+					}
+					if st := sc.StaticCallee(); st != nil && w.IsParametric(st) && st == cal {
+						targets, ok := funcArgTargets(sc, f, w)
+						if !ok && !ms.Top {
+							ms.Top = true
+							ms.Fams = map[string]Sort{}
+							changed = true
+						}
+						for _, t := range targets {
+							if tm, ok := mi.mods[t]; ok && ms.union(tm) {
+								changed = true
+							}
+						}
 					}
 				}
-				cal := e.Callee.Func
 				if cm, ok := mi.mods[cal]; ok {
 					if ms.union(cm) {
 						changed = true
@@ -419,6 +440,36 @@ func (w *World) ComputeMods() *ModInfo {
 				} else if len(cal.Blocks) == 0 && w.InModule(cal) {
 					// no body in module (should not happen)
 				} else if !w.InModule(cal) {
+					if e.Site != nil {
+						switch cal.String() {
+						case "sort.Slice", "sort.SliceStable", "sort.Strings", "sort.Ints":
+							sc := e.Site.Common()
+							var st types.Type
+							if mk, ok := sc.Args[0].(*ssa.MakeInterface); ok {
+								st = mk.X.Type()
+							} else {
+								st = sc.Args[0].Type()
+							}
+							if sl, ok := under(st).(*types.Slice); ok {
+								tmp := map[string]Sort{}
+								elemStoreFams(sl.Elem(), tmp)
+								for k, so := range tmp {
+									if ms.add(k, so) {
+										changed = true
+									}
+								}
+								targets, ok := funcArgTargets(sc, f, w)
+								if ok {
+									for _, t := range targets {
+										if tm, ok := mi.mods[t]; ok && ms.union(tm) {
+											changed = true
+										}
+									}
+									continue
+								}
+							}
+						}
+					}
 					if externalIsTop(cal) && !ms.Top {
 						ms.Top = true
 						ms.Fams = map[string]Sort{}
@@ -548,4 +599,67 @@ func (mi *ModInfo) Reads(f *ssa.Function) *ModSet {
 		return &ModSet{Fams: map[string]Sort{}}
 	}
 	return &ModSet{Top: true}
+}
+
+// IsParametric: the function lives in a file declared callback-parametric.
+func (w *World) IsParametric(f *ssa.Function) bool {
+	if w.Contracts == nil || len(w.Contracts.ParametricFiles) == 0 || f == nil {
+		return false
+	}
+	if v, ok := w.parametric[f]; ok {
+		return v
+	}
+	if w.parametric == nil {
+		w.parametric = map[*ssa.Function]bool{}
+	}
+	file := w.FileOfFunc(f)
+	res := false
+	for _, p := range w.Contracts.ParametricFiles {
+		if strings.HasSuffix(file, "/"+p) {
+			res = true
+		}
+	}
+	w.parametric[f] = res
+	return res
+}
+
+// funcArgTargets: the functions that function-typed arguments of a call denote; ok=false when some
+// function-typed argument is not a literal closure / function (its target is unknown).
+func funcArgTargets(c *ssa.CallCommon, caller *ssa.Function, w *World) (fns []*ssa.Function, ok bool) {
+	ok = true
+	for _, a := range c.Args {
+		if _, isFn := under(a.Type()).(*types.Signature); !isFn {
+			continue
+		}
+		switch x := a.(type) {
+		case *ssa.MakeClosure:
+			fns = append(fns, x.Fn.(*ssa.Function))
+		case *ssa.Function:
+			fns = append(fns, x)
+		case *ssa.Parameter, *ssa.FreeVar:
+			// forwarding a callback the caller itself received: accounted for at the caller's callers
+			if !w.IsParametric(caller) {
+				ok = false
+			}
+		case *ssa.Const:
+			// nil
+		default:
+			// e.g. a ChangeType of a closure
+			if ct, isCT := x.(*ssa.ChangeType); isCT {
+				if mc, isMC := ct.X.(*ssa.MakeClosure); isMC {
+					fns = append(fns, mc.Fn.(*ssa.Function))
+					continue
+				}
+				if fn, isF := ct.X.(*ssa.Function); isF {
+					fns = append(fns, fn)
+					continue
+				}
+				if _, isP := ct.X.(*ssa.Parameter); isP && w.IsParametric(caller) {
+					continue
+				}
+			}
+			ok = false
+		}
+	}
+	return fns, ok
 }
